@@ -51,6 +51,13 @@ def sleep(r, p=0.5):
     return "\t\tmachine.Sleep(%d)\n" % r.choice([1000, 200000, 2000000]) if r.random() < p else ""
 
 
+def mutex_decl(r):
+    """the mutex is a := local or a re-assignable var (then every use loads the pointer from its cell)"""
+    if getattr(r, "force_var_mutex", False):
+        return "\tvar mu *sync.Mutex = new(sync.Mutex)\n"
+    return "\tmu := new(sync.Mutex)\n" if r.random() < 0.5 else "\tvar mu *sync.Mutex = new(sync.Mutex)\n"
+
+
 def t_counter(r, name):
     n = r.randrange(1, 4)
     vals = [r.randrange(1, 50) for _ in range(n)]
@@ -58,7 +65,7 @@ def t_counter(r, name):
     via_ptr = r.random() < 0.3
     decl = "\ttotal := new(uint64)\n" if via_ptr else "\tvar total uint64 = %d\n" % r.randrange(5)
     rd, wr = ("*total", "*total") if via_ptr else ("total", "total")
-    body = "func %s() uint64 {\n\tmu := new(sync.Mutex)\n\twg := new(sync.WaitGroup)\n%s" % (name, decl)
+    body = "func %s() uint64 {\n%s\twg := new(sync.WaitGroup)\n%s" % (name, mutex_decl(r), decl)
     if add_once:
         body += "\twg.Add(%d)\n" % n
     for v in vals:
@@ -73,7 +80,7 @@ def t_cond(r, name):
     sig = r.choice(["Signal", "Broadcast"])
     v = r.randrange(1, 100)
     two_flags = r.random() < 0.4
-    body = "func %s() uint64 {\n\tmu := new(sync.Mutex)\n\tcond := sync.NewCond(mu)\n\tvar done bool = false\n\tvar result uint64 = 0\n" % name
+    body = "func %s() uint64 {\n%s\tcond := sync.NewCond(mu)\n\tvar done bool = false\n\tvar result uint64 = 0\n" % (name, mutex_decl(r))
     body += "\tgo func() {\n%s\t\tmu.Lock()\n\t\tresult = %d\n\t\tdone = true\n\t\tcond.%s()\n\t\tmu.Unlock()\n\t}()\n" % (sleep(r), v, sig)
     body += "\tmu.Lock()\n\tfor !done {\n\t\tcond.Wait()\n\t}\n\tr := result\n\tmu.Unlock()\n"
     if two_flags:
@@ -86,7 +93,7 @@ def t_cond(r, name):
 def t_timeout(r, name):
     body = "func %s() uint64 {\n\tmu := new(sync.Mutex)\n\tcond := sync.NewCond(mu)\n\tvar ready bool = false\n\tvar waited bool = false\n" % name
     body += "\tgo func() {\n\t\tmachine.Sleep(%d)\n\t\tmu.Lock()\n\t\tready = true\n\t\tcond.%s()\n\t\tmu.Unlock()\n\t}()\n" % (r.choice([30000000, 50000000]), r.choice(["Signal", "Broadcast"]))
-    body += "\tmu.Lock()\n\tfor !ready {\n\t\tmachine.WaitTimeout(cond, %d)\n\t\twaited = true\n\t}\n\tmu.Unlock()\n" % r.choice([3, 5, 8])
+    body += "\tmu.Lock()\n\tfor !ready {\n\t\tmachine.WaitTimeout(cond, %d)\n\t\twaited = true\n\t}\n\tmu.Unlock()\n" % (0 if getattr(r, "force_zero_timeout", False) else r.choice([0, 3, 5, 8]))
     # the mutex must still be usable afterwards (helper goroutines of timed-out waits wake up late)
     body += "\tfor i := uint64(0); i < 10; i++ {\n\t\tmachine.Sleep(2000000)\n\t\tmu.Lock()\n\t\tmu.Unlock()\n\t}\n\tif waited {\n\t\treturn %d\n\t}\n\treturn %d\n}\n" % (7, 7)
     return body, True
@@ -126,14 +133,28 @@ def t_handoff(r, name):
     return body, True
 
 
-TEMPLATES = [t_counter, t_counter, t_cond, t_timeout, t_order, t_loopspawn, t_helper, t_handoff]
+def t_goargs(r, name):
+    v = r.randrange(1, 50)
+    body = "func %s() uint64 {\n\tmu := new(sync.Mutex)\n\twg := new(sync.WaitGroup)\n\tvar x uint64 = %d\n\tout := new(uint64)\n\twg.Add(1)\n" % (name, v)
+    body += "\tgo func(a uint64) {\n%s\t\tmu.Lock()\n\t\t*out = a\n\t\tmu.Unlock()\n\t\twg.Done()\n\t}(x)\n" % sleep(r, 0.5)
+    body += "\tx = %d\n\twg.Wait()\n\tmu.Lock()\n\tres := *out*100 + x\n\tmu.Unlock()\n\treturn res\n}\n" % (v + 1)
+    return body, True
 
 
-def package(seed, nfuncs=6):
+MAY_BE_REJECTED = {"t_goargs"}
+
+TEMPLATES = [t_goargs, t_counter, t_counter, t_cond, t_timeout, t_order, t_loopspawn, t_helper, t_handoff]
+
+
+def package(seed, nfuncs=7):
     r = random.Random(seed)
     fns = []
     for k in range(nfuncs):
-        t = t_timeout if k == 0 else TEMPLATES[(seed + k) % len(TEMPLATES)] if k < 3 else r.choice(TEMPLATES)
+        # every package: a timeout loop (zero timeout in every other package), a go statement with arguments, a counter
+        # whose mutex lives in a re-assignable variable; then templates by rotation and at random
+        r.force_zero_timeout = (seed % 2 == 0)
+        r.force_var_mutex = (k == 2)
+        t = [t_timeout, t_goargs, t_counter][k] if k < 3 else TEMPLATES[(seed + k) % len(TEMPLATES)] if k < 5 else r.choice(TEMPLATES)
         src, det = t(r, "c%d" % k)
         fns.append(("c%d" % k, t.__name__, src, det))
     body = "\n".join(f[2] for f in fns)
@@ -190,13 +211,24 @@ def check(ctx, build=None):
             fns, src = package(seed)
             root = os.path.join(scratch, "m")
             gomod.write_module(root, {"p": {"p.go": src}})
-            rc, gerr, text = k4.translate(root, flags=())
+            rc, gerr, text = k4.translate(root)          # -ignore-errors: a rejected function is dropped, the others stay
             stats["packages"] += 1
-            if rc != 0 or text is None:
+            if text is None:
                 viol("C03: goose rejects a program built from go statements, mutexes, condition variables and wait groups", {"proto": "c03", "seed": seed, "package": src}, "accepted", gerr[-800:])
                 continue
-            nat, races = native_outcomes(root, fns, runs, race=False)
-            nat_r, races_r = native_outcomes(root, fns, max(1, runs // 3), race=True)
+            nm = k4.gl_session(text, ["names"])
+            present = set(nm[1][6:].split(",")) if not nm[0].startswith("parse-error") and nm[1] != "names -" else set()
+            missing_fns = [f for f in fns if f[0] not in present]
+            for f in missing_fns:
+                if f[1] in MAY_BE_REJECTED:
+                    stats["rejected_out_of_subset"] += 1
+                else:
+                    viol("C03: goose rejects a function built from go statements, mutexes, condition variables and wait groups",
+                         {"proto": "c03", "seed": seed, "function": f[0], "template": f[1], "go_source": f[2]}, "accepted", gerr[-800:])
+            all_fns = fns
+            fns = [f for f in fns if f[0] in present]
+            nat, races = native_outcomes(root, all_fns, runs, race=False)
+            nat_r, races_r = native_outcomes(root, all_fns, max(1, runs // 3), race=True)
             if races_r:
                 raise C.Infra("C03 generator produced a racy program (seed %d): %s" % (seed, races_r[0][:600]))
             reps = k4.gl_session(text, ["explore " + f[0] for f in fns])
